@@ -417,6 +417,44 @@ def write_replay(rep):
         json.dump(rep, f, indent=1)
     return path
 
+# ------------------------------------------------------------------ source fingerprints (adaptive sampling)
+CRATE_DEPS = {          # which crates' sources a property's hand model was written against
+    'C01': ['board', 'core'], 'C02': ['board', 'core'], 'C03': ['board', 'core'], 'C04': ['board'], 'C05': ['board', 'core'],
+    'C06': ['board', 'core'], 'C07': ['engine_core', 'board', 'core', 'uci'], 'C08': ['engine_core', 'board', 'core', 'uci'],
+    'C09': ['engine_core', 'board', 'core', 'uci'], 'C10': ['engine_core', 'board', 'core', 'uci'], 'C11': ['engine_core', 'board', 'core'],
+    'C12': ['board', 'core'], 'C13': ['board', 'core'], 'C14': ['board', 'core'], 'C15': ['uci', 'core'],
+    'C16': ['engine_core', 'uci', 'board', 'core', 'engine_app'], 'C17': ['pgn', 'board', 'core'], 'C18': ['engine_core'], 'C19': ['lichess_api', 'core', 'uci'],
+}
+
+def source_fingerprints():
+    """{path relative to /repo: hash of the file with comments and white space removed} for every Rust source file"""
+    out = {}
+    for crate in sorted(os.listdir(REPO)):
+        src = os.path.join(REPO, crate, 'src')
+        if not os.path.isdir(src):
+            continue
+        for root, _, files in os.walk(src):
+            for f in sorted(files):
+                if f.endswith('.rs'):
+                    p = os.path.join(root, f)
+                    body = open(p, errors='replace').read()
+                    body = re.sub(r'//[^\n]*', '', body)
+                    body = re.sub(r'\s+', '', body)
+                    out[os.path.relpath(p, REPO)] = hashlib.sha256(body.encode()).hexdigest()[:16]
+    return out
+
+def changed_sources(pid):
+    """source files of the crates behind property pid whose text differs from the text the models were written against
+    (checks/source_fingerprints.json, committed).  A difference is NOT an alarm: it makes the check sample more."""
+    try:
+        ref = json.load(open(os.path.join(ROOT, 'checks', 'source_fingerprints.json')))
+    except Exception:
+        return []
+    cur = source_fingerprints()
+    crates = CRATE_DEPS.get(pid, [])
+    ch = [f for f in sorted(set(ref) | set(cur)) if f.split(os.sep)[0] in crates and ref.get(f) != cur.get(f)]
+    return ch
+
 def known_findings():
     out = []
     p = os.path.join(ROOT, 'known_findings.txt')
@@ -501,6 +539,9 @@ def main():
             else: i += 1
         import props
         return props.run_check(pid, tier, seed)
+    if args[0] == 'fingerprint':
+        json.dump(source_fingerprints(), open(os.path.join(ROOT, 'checks', 'source_fingerprints.json'), 'w'), indent=0, sort_keys=True)
+        print('fingerprints of %d source files written' % len(source_fingerprints())); return 0
     if args[0] == 'replay':
         import props
         return props.replay(args[1])
